@@ -18,7 +18,7 @@ DEF_CLAUSES = {
     "def.misuse_accepted": {"C19", "C08"},
     "def.misuse_wrong_class": {"C19"},
     "def.rejected_wrongly": {"C04", "C14"},
-    "def.wrap_missing": {"C03"},
+    "def.wrap_missing": {"C03", "C04", "C18"},  # an instance must satisfy the invariants of its class and ancestors
     "def.wrap_forbidden": {"C03"},
     "def.second_checker": {"C14"},
     "def.wrapped_chain": {"C14"},
@@ -70,7 +70,8 @@ def hand_eval(view_member: dict, inv_oncall: List[int], truth: Dict[int, bool]) 
 
 def verdicts_unit(res: CheckResult, hist: dict, expected: Dict[int, dict], ic: Any, rng: random.Random,
                   max_assign: int = 64) -> int:
-    """HandEvalAgrees: verdict from the (model's = introspected) lists vs verdict of the real call."""
+    """HandEvalAgrees: verdict from the introspected lists (read from the implementation through the documented
+    interface; on a conforming history they are the specification's lists) vs verdict of the real call."""
     rt = D.DefRuntime(hist, ic)
     n = 0
     last = 0
@@ -82,7 +83,7 @@ def verdicts_unit(res: CheckResult, hist: dict, expected: Dict[int, dict], ic: A
         return 0
     exp = expected[last]
     for j in range(1, last + 1):
-        view = D.normalise_model_view(exp["views"][j - 1], hist["names"])
+        view = rt.view(j)
         cls = rt.classes[j]
         for name, mv in view["members"].items():
             if mv["kind"] not in ("fn", "prop", "static", "cls"):
@@ -90,10 +91,13 @@ def verdicts_unit(res: CheckResult, hist: dict, expected: Dict[int, dict], ic: A
             cons = sorted(set(c for g in mv["pre"] for c in g) | set(mv["post"]) | set(view["inv"]))
             if not cons:
                 continue
+            # contracts which are NOT listed for this member must not influence the verdict either: invariants of
+            # other classes of the history vary too
+            cons = sorted(set(cons) | {i for i, c in enumerate(hist["con"], 1) if c["role"] == "inv"})
             assigns = list(itertools.product([True, False], repeat=len(cons)))
             if len(assigns) > max_assign:
                 assigns = rng.sample(assigns, max_assign)
-            wrapped = mv["invw"]
+            wrapped = mv["kind"] in ("fn", "prop")   # public instance members are subject to the invariants
             for bits in assigns:
                 rt.truth = {c: True for c in range(1, len(hist["con"]) + 1)}
                 try:
@@ -101,7 +105,7 @@ def verdicts_unit(res: CheckResult, hist: dict, expected: Dict[int, dict], ic: A
                 except Exception as exc:  # noqa
                     raise MachineryError("cannot instantiate class of history {}: {!r}".format(hist["hid"], exc))
                 rt.truth.update(dict(zip(cons, bits)))
-                want = hand_eval(mv, view["oncall"] if wrapped else [], rt.truth)
+                want = hand_eval(mv, view["doc_oncall"] if wrapped else [], rt.truth)
                 rt.evaluated = []
                 try:
                     if mv["kind"] == "prop":
@@ -176,6 +180,10 @@ def def_unit(res: CheckResult, name: str, hists: List[dict], ic: Any, verdicts: 
             else:
                 res.note("nonconformance outside {} (clause={} -> {}) in unit {}".format(
                     res.prop, d0["clause"], ",".join(sorted(props)), name))
+                if verdicts and res.prop == "C18" and not d0["clause"].startswith("proto."):
+                    # C18's own oracle does not need the specification's lists: what the implementation lists must
+                    # explain what the implementation does, also where the lists are not the ones expected
+                    nverd += verdicts_unit(res, h, exp[h["hid"]], ic, rng)
         elif verdicts:
             nverd += verdicts_unit(res, h, exp[h["hid"]], ic, rng)
         if len(res.samples) < 3 and nrun % 211 == 1:
